@@ -16,7 +16,7 @@ pub fn def() -> CheckDef {
         meta: CheckMeta {
             id: "C11",
             level: "fault_enumeration",
-            rule: "generated histories run in a worker process under the LD_PRELOAD shim; for a chosen target commit a dry run counts the I/O calls the commit issues on the database descriptor (every lseek, write, fsync), then one worker per fault is run with that call failing: EIO and ENOSPC for every call, plus for writes 'short write then error' (1, 100, 512 bytes transferred), plus a file-size limit (RLIMIT_FSIZE = current size, SIGXFSZ ignored) so that file extension and writes beyond the limit fail. Oracle in the worker: the faulted commit returns Err (a panic or abort is a failure); immediately afterwards, on the same handle, a reader sees exactly the pre- or the post-transaction state; the independent parser finds the file sound and equal to that state; DB::check passes; 3-6 further generated transactions on the same handle commit and match the model continued from the observed state with every commit verified; after reopen the same. Single faults are enumerated exhaustively per target commit; pairs are sampled: a first fault in the target commit and a second one (re-armed) in one of the next three commits on the same handle, each faulted commit judged the same way. Non-trivial = fault that fired after at least one write of the commit had succeeded. Distinct = (history, target, fault).",
+            rule: "generated histories (1 in 4 with a free list spanning several pages) run in a worker process under the LD_PRELOAD shim; for a chosen target commit a dry run counts the I/O calls the commit issues on the database descriptor (every lseek, write, fsync), then one worker per fault is run with that call failing: EIO and ENOSPC for every call, plus for writes 'short write then error' (1, 100, 512 bytes transferred), plus a file-size limit (RLIMIT_FSIZE = current size, SIGXFSZ ignored) so that file extension and writes beyond the limit fail. Oracle in the worker: the faulted commit returns Err (a panic or abort is a failure); immediately afterwards, on the same handle, a reader sees exactly the pre- or the post-transaction state; the independent parser finds the file sound and equal to that state; DB::check passes; 3-6 further generated transactions on the same handle commit and match the model continued from the observed state with every commit verified; after reopen the same. Single faults are enumerated exhaustively per target commit; pairs are sampled: a first fault in the target commit and a second one (re-armed) in one of the next three commits on the same handle, each faulted commit judged the same way. Non-trivial = fault that fired after at least one write of the commit had succeeded. Distinct = (history, target, fault).",
             assumptions: &[
                 "faults are injected at the libc boundary (write, lseek64, fsync); fallocate is a raw syscall and is made to fail through RLIMIT_FSIZE instead",
                 "a fault makes that one call fail; the file system otherwise behaves (what was written before the fault stays written)",
@@ -358,6 +358,16 @@ pub fn count_calls(case: &C11Case, dir: &Path) -> Result<Vec<(u32, usize)>, Fail
 }
 
 pub fn fault_history(seed: u64) -> (HistoryCase, Vec<usize>) {
+    if seed % 4 == 3 {
+        // a free list spanning several pages (see C02): targets are the small commits that
+        // rewrite it, the second of which finds the old run at the lowest free position
+        let h = super::c02::big_freelist_history(seed);
+        let commits: Vec<usize> = h.txs.iter().enumerate().filter(|(_, t)| t.kind == TxKind::Commit).map(|(i, _)| i).collect();
+        // txs: 0 create, 1 fill, 2 delete bucket, 3.. small commits
+        let t1 = commits[3.min(commits.len() - 2)];
+        let t2 = commits[5.min(commits.len() - 2)];
+        return (h, vec![t1, t2]);
+    }
     let w = OpWeights { get: 1, read_misc: 1, seek_range: 1, bucket_delete: 3, delete_run: 6, ..OpWeights::default() };
     let strat = history(8, 14, w, (1, 0, 0, 0));
     let mut h = gen_one(&strat, seed);
